@@ -98,9 +98,27 @@ class C01(Prop):
             ops.append("v1b " + C.hexs(x))
             if V.valid_utf8(x):
                 ops.append("v1s " + C.hexs(x))
+        # the std functions the parser relies on, against their models (token-exhaustive)
+        k = 4 if tier == "quick" else 6
+        for s_ in V.token_products(V.STD4_TOKENS, k):
+            ops.append("ip4p " + C.hexs(s_))
+        for s_ in V.token_products(V.STD6_TOKENS, k if tier == "quick" else 5):
+            ops.append("ip6p " + C.hexs(s_))
+        for s_ in V.token_products(V.U16_TOKENS, k if tier == "quick" else 5):
+            ops.append("u16p " + C.hexs(s_))
+        import itertools
+        lead = [0x00, 0x41, 0x7f, 0x80, 0xbf, 0xc0, 0xc1, 0xc2, 0xdf, 0xe0, 0xa0, 0x9f, 0xe1, 0xec, 0xed, 0xee, 0xef, 0xf0, 0x90, 0x8f, 0xf1, 0xf3, 0xf4, 0xf5, 0xff]
+        for n in range(0, 4 if tier == "quick" else 5):
+            for combo in itertools.product(lead if n < 4 else lead[::2], repeat=n):
+                ops.append("utf8 " + C.hexs(bytes(combo)))
+        for g in range(0, 1 << 16, 257 if tier == "quick" else 17):
+            for txt in ("%x::" % g, "::%X" % g, "%04x:0:0:0:0:0:0:%x" % (g, g), "1:2:3:4:5:6:%d.%d.%d.%d" % (g >> 8, g & 255, g & 255, g >> 8)):
+                ops.append("ip6p " + C.hexs(txt.encode()))
         return ops
 
     def project(self, op, line):
+        if op.startswith(("ip4p", "ip6p", "u16p", "utf8")):
+            return line
         if op.startswith("v1b"):
             r = res1(line)
             return okview(r) if r["k"] == "ok" else ("panic" if r["k"] == "panic" else "reject")
@@ -115,6 +133,20 @@ class C01(Prop):
         out = []
         for op, il in zip(ops, impl):
             x = op_bytes(op)
+            if op.startswith(("ip4p", "ip6p", "u16p", "utf8")):
+                # independent oracles for the std text forms
+                if op.startswith("ip4p") and V.valid_utf8(x):
+                    w = V.oracle_ip4(x)
+                    if il != ("ok " + w.hex() if w is not None else "err"):
+                        out.append(Violation("relation", op, il, None, "dotted-quad oracle says %r" % (w,)))
+                elif op.startswith("ip6p") and V.valid_utf8(x):
+                    w = V.oracle_ip6(x)
+                    if il != ("ok " + w.hex() if w is not None else "err"):
+                        out.append(Violation("relation", op, il, None, "RFC 4291 oracle says %r" % (w,)))
+                elif op.startswith("utf8"):
+                    if il != ("1" if V.valid_utf8(x) else "0"):
+                        out.append(Violation("relation", op, il, None, "UTF-8 validity"))
+                continue
             want = V.oracle_v1(x)
             if op.startswith("v1b"):
                 got = [res1(il)]
@@ -134,6 +166,8 @@ class C01(Prop):
         return out
 
     def nontrivial(self, op, line):
+        if not op.startswith("v1"):
+            return None
         r = res1(line.split(" | ")[0])
         if r["k"] == "ok" and r.get("addr", "").count("/") == 4:
             a = r["addr"].split("/")
@@ -434,12 +468,27 @@ class C08(Prop):
             else:
                 ops.append("rt1 tcp6/%s/%s/%d/%d" % (V.groups_to_bytes(V.rand_ip6_groups(rng)).hex(), V.groups_to_bytes(V.rand_ip6_groups(rng)).hex(), V.rand_port(rng), V.rand_port(rng)))
         ops.append("rt1 tcp6/%s/%s/65535/65535" % ("ff" * 16, "ff" * 16))
+        # std Display against its model: all ports, octet sweeps, all zero-run patterns
+        for p_ in range(65536):
+            ops.append("u16d %d" % p_)
+        for a in range(256):
+            ops.append("ip4d %02x%02x%02x%02x" % (a, (a * 7) % 256, 255 - a, (a * 13 + 5) % 256))
+        for pat in range(256):
+            for fill in fills:
+                ops.append("ip6d " + V.groups_to_bytes([0 if (pat >> i) & 1 else fill for i in range(8)]).hex())
+        for a in range(0, 65536, 251):
+            ops.append("ip6d 00000000000000000000ffff%04x%04x" % (a, 65535 - a))
+            ops.append("ip6d 0000000000000000000000000000%04x" % a)
         return ops
 
     def relation(self, ops, impl):
         out = []
         seen = {}
         for op, il in zip(ops, impl):
+            if not op.startswith("rt1"):
+                if op.startswith("u16d") and C.unhex(il) != op.split(" ")[1].encode():
+                    out.append(Violation("relation", op, il, None, "decimal Display"))
+                continue
             addr = op.split(" ", 1)[1]
             _, kv = C.fields(il)
             problems = []
@@ -459,6 +508,8 @@ class C08(Prop):
         return out
 
     def nontrivial(self, op, line):
+        if not op.startswith("rt1"):
+            return None
         p = op.split("/")
         if len(p) == 5 and p[1] != p[2]:
             if p[0].endswith("tcp6"):
